@@ -1,0 +1,81 @@
+// Copyright (C) 2026 Storj Labs, Inc.
+// See LICENSE for copying information.
+
+//go:build verif
+
+package drpcmigrate
+
+// Machine-checked contracts for this package (read by /verif/govc; comment-only).
+// Channel operations are abstracted (select = nondeterministic choice among its cases).
+
+//@ axiom Closed != nil
+
+//@ func (*listener).Conns
+//@   inline
+//@ func newListener
+//@   inline
+
+// routeConn: every accepted connection is either closed or sent to exactly one listener, on every
+// path; the consumed prefix is replayed (wrapped) only when no route matched, with the very bytes read.
+//@ func (*ListenMux).routeConn
+//@   props C16
+//@   requires conn != nil && m.def != nil && m.prefixLen >= 0 && m.prefixLen <= 1048576 && m.routes != nil
+//@   modifies *
+//@   assumes "the routes map only holds non-nil listeners (Route stores the result of newListener)"
+//@   site (*Mutex).Unlock assume [routes-nonnil] lis != nil
+//@   site newPrefixConn assert [C16.replay-prefix] !ok && arg0 == buf && len(buf) == m.prefixLen && arg1 == conn0
+//@   site Close assert [C16.close-original-or-wrapper] arg0 != nil
+//@   check [C16.exactly-once] eventCount("invoke:Close") + eventCount("select:1") == 1
+//@   check [C16.read-error-closes] eventCount("select:") == 0 ==> eventCount("invoke:Close") == 1
+//@   check [C16.wrap-once] eventCount("call:newPrefixConn") <= 1
+
+// the default listener's connection reads the saved prefix first, then the client's bytes
+//@ func newPrefixConn
+//@   props C16
+//@   requires conn != nil
+//@   modifies *
+//@   site NewReader assert [C16.prefix-bytes] arg0 == data
+//@   site MultiReader assert [C16.prefix-then-conn] len(arg0) == 2 && arg0[1] == conn
+//@   ensures [conn] result != nil && result.Conn == conn
+
+//@ func (*prefixConn).Read
+//@   props C16
+//@   requires pc.Reader != nil
+//@   modifies allmem
+//@   site Read assert [C16.delegates] arg0 == pc.Reader && arg1 == p
+
+// HeaderConn: the first Write sends header ++ buf in a single Write of the underlying connection and
+// reports at most len(buf) bytes; later Writes pass through unchanged.
+//@ func (*HeaderConn).Write$1
+//@   props C16
+//@   requires d != nil && d.Conn != nil
+//@   modifies *
+//@   site Write assert [C16.header-first] len(arg1) == len(d.header) + len(buf) && (forall i int :: 0 <= i && i < len(d.header) ==> arg1[i] == d.header[i]) && (forall i int :: 0 <= i && i < len(buf) ==> arg1[len(d.header) + i] == buf[i])
+//@   check [C16.one-write] eventCount("invoke:Write") == 1
+
+//@ func (*HeaderConn).Write
+//@   props C16
+//@   requires d.Conn != nil
+//@   modifies *
+//@   site Write assert [C16.passthrough] arg1 == buf
+//@   check [C16.count]     0 <= n && n <= len(buf)
+//@   check [C16.once-skip] eventCount("once-skip") == 1 ==> eventCount("invoke:Write") == 1
+
+// Accept fails with the stored error once done is closed; the error is stored before done is closed
+// (so it is never nil when observed after the close).
+//@ func (*listener).Accept
+//@   props C16
+//@   modifies *
+//@   check [C16.closed-fails] eventCount("select:0") >= 1 ==> conn == nil && err == l.err
+//@ func (*listener).Close$1
+//@   props C16
+//@   assumes "done is closed only inside l.once.Do closures, which run at most once in total"
+//@   requires l != nil && l.done != nil && !closed(l.done)
+//@   modifies *
+//@   site close assert [C16.err-before-close] l.err != nil && arg0 == l.done
+//@ func (*ListenMux).monitorListener$1
+//@   props C16
+//@   assumes "done is closed only inside lis.once.Do closures, which run at most once in total"
+//@   requires lis != nil && m != nil && lis.done != nil && !closed(lis.done)
+//@   modifies *
+//@   site close assert [C16.err-before-close] lis.err != nil && arg0 == lis.done
